@@ -2,9 +2,12 @@ SPECIFICATION Spec
 CONSTANTS
   Versions <- VersionsAll
   FullVersions <- VersionsAll
-  Family = "raw"
+  Families <- FamRaw
+  Kinds <- KindsLattice
+  ChunkSize = 1
+  MaxHist = 0
   FullOffsets <- OffAll
   LiteOffsets <- OffNone
   AllOnlyOffsets <- OffNone
-INVARIANTS TypeOK PExact PIdempotent PCore PIdentity PModule PSanity Emit
+INVARIANTS TypeOK PExact PIdempotent PHistory PCore PIdentity PModule PSanity Emit
 CHECK_DEADLOCK FALSE
